@@ -168,6 +168,7 @@ class Machine:
       sym_sys: {attr: mask}  bits of control registers that are symbolic (others keep their reset value)
       set_sys: {attr: value} concrete overrides applied before sym_sys
       e_sym: CPSR.E symbolic (default False -> E = 0)
+      j_sym: CPSR.J symbolic in Thumb state (ThumbEE); default J = 0
       it: 'none' (ITSTATE=0) | 'any' (any valid ITSTATE, Thumb only) | 'block' (inside an IT block) |
           'block:k' (inside a block whose condition has bits [3:1] = k)
       mem: 'sym'
@@ -222,7 +223,10 @@ class Machine:
             mv = BV(MODE[mode], 5)
         else:
             mv = env.bvvar('cpsr_m', 5)
-        cpsr = z3.Concat(env.bvvar('cpsr_nzcvq', 5), z3.Extract(1, 0, itv), BV(0, 1), BV(0, 4), env.bvvar('cpsr_ge', 4),
+        # j_sym: CPSR.J symbolic with J => T (ThumbEE state; reachable on the stock configuration through ENTERX, see
+        # F041); Jazelle state (J = 1, T = 0) cannot be entered (switch_to_jazelle_execution is unimplemented)
+        jv = env.bvvar('cpsr_j', 1) if (opts.get('j_sym') and thumb) else BV(0, 1)
+        cpsr = z3.Concat(env.bvvar('cpsr_nzcvq', 5), z3.Extract(1, 0, itv), jv, BV(0, 4), env.bvvar('cpsr_ge', 4),
                          z3.Extract(7, 2, itv), evar, env.bvvar('cpsr_aif', 3), BV(1 if thumb else 0, 1), mv)
         pre.cpsr = cpsr
         regs.cpsr.value = env.wrap(cpsr)
